@@ -177,6 +177,7 @@ type hsParams struct {
 	scert            string
 	seed             uint64
 	nc, ns, maxFrag  int
+	curve            int // 0: library defaults; else the only curve either side offers (23, 24, 25: P-256/384/521)
 }
 
 func parseHS(args []string) (hsParams, bool) {
@@ -195,8 +196,11 @@ func parseHS(args []string) (hsParams, bool) {
 	p.tickets = args[8] == "1"
 	p.scert = args[9]
 	f := strings.Split(args[10], ":")
-	if !ok1 || !ok2 || len(f) != 4 {
+	if !ok1 || !ok2 || (len(f) != 4 && len(f) != 5) {
 		return p, false
+	}
+	if len(f) == 5 {
+		p.curve, _ = strconv.Atoi(f[4])
 	}
 	p.seed, _ = strconv.ParseUint(f[0], 16, 64)
 	p.nc, _ = strconv.Atoi(f[1])
@@ -266,6 +270,9 @@ func buildServer(p hsParams) *gmtls.Config {
 	cfg.PreferServerCipherSuites = p.prefer
 	cfg.ClientAuth = gmtls.ClientAuthType(p.auth)
 	cfg.SessionTicketsDisabled = !p.tickets
+	if p.curve != 0 {
+		cfg.CurvePreferences = []gmtls.CurveID{gmtls.CurveID(p.curve)}
+	}
 	return cfg
 }
 
@@ -339,6 +346,9 @@ func hsOnce(p hsParams, sh *hsShared) string {
 		if stdClient {
 			v := tlsVersionOf(p.client)
 			cfg := &tls.Config{RootCAs: std.stdPool, ServerName: "std.test", MinVersion: v, MaxVersion: v, CipherSuites: p.csuites, Time: tlsNow}
+			if p.curve != 0 {
+				cfg.CurvePreferences = []tls.CurveID{tls.CurveID(p.curve)}
+			}
 			if p.ccert == 1 {
 				cfg.Certificates = []tls.Certificate{{Certificate: std.rsaClient.Certificate, PrivateKey: std.rsaClient.PrivateKey}}
 			} else if p.ccert == 2 {
@@ -382,6 +392,9 @@ func hsOnce(p hsParams, sh *hsShared) string {
 			}
 		}
 		cfg.CipherSuites = p.csuites
+		if p.curve != 0 {
+			cfg.CurvePreferences = []gmtls.CurveID{gmtls.CurveID(p.curve)}
+		}
 		if p.tickets {
 			cfg.ClientSessionCache = sh.cache
 		}
@@ -414,6 +427,9 @@ func hsOnce(p hsParams, sh *hsShared) string {
 		if stdServer {
 			cfg := &tls.Config{Certificates: []tls.Certificate{{Certificate: tlsCert.Certificate, PrivateKey: tlsCert.PrivateKey}}, CipherSuites: p.ssuites,
 				MinVersion: 0x0301, MaxVersion: 0x0303, ClientAuth: tls.ClientAuthType(p.auth), ClientCAs: std.stdPool, Time: tlsNow, SessionTicketsDisabled: !p.tickets}
+			if p.curve != 0 {
+				cfg.CurvePreferences = []tls.CurveID{tls.CurveID(p.curve)}
+			}
 			s := tls.Server(sEnd, cfg)
 			sconn = s
 			ss.err = s.Handshake()
@@ -612,6 +628,25 @@ func genC06(r *rng, tier string, emit func(string)) {
 		}
 		emit(fmt.Sprintf("hs %s %s %s %s %d %d %d %s %d %s %s", mode, client, suiteList(cl), suiteList(sl), b(r.chance(1, 2)), auth, cc,
 			[]string{"s", "c"}[r.intn(2)], r.intn(2), scert, pay()))
+	}
+	// ECDHE over the NIST curves only (X25519, which both sides prefer, is not offered): the shared secret is
+	// the x-coordinate as a fixed-width string; P-521 has a leading zero byte in every second handshake, P-256 and
+	// P-384 in one of 256
+	nec := 10
+	if tier == "thorough" {
+		nec = 150
+	}
+	for i := 0; i < nec; i++ {
+		for _, cv := range []int{25, 25, 23, 24} {
+			su, scert := 0xc02f, "r"
+			if i%3 == 1 {
+				su, scert = 0xc02b, "e"
+			} else if i%3 == 2 {
+				su = 0xc013
+			}
+			cfgs := []string{"tls tls12", "auto tls12", "tls std12", "std tls12", "auto std12"}
+			emit(fmt.Sprintf("hs %s %x %x 0 0 0 s 0 %s %x:%d:%d:1000:%d", cfgs[(i+cv)%len(cfgs)], su, su, scert, r.u64(), r.intn(50), r.intn(50), cv))
+		}
 	}
 	// wire captures of real GMSSL connections for the independent decoder
 	ncap := 6
